@@ -43,6 +43,90 @@ pub fn split_include(
     files
 }
 
+/// Move the files of an include tree into directories: the base may live in `prog/`, included
+/// files in `lib/`, `shared/x/`, an absolute directory (in-memory readers only) or next to it.
+/// Include directives are rewritten as paths relative to the including file.
+pub fn place_in_dirs(files: &mut Vec<(String, Vec<Line>)>, ch: &mut Choices, allow_absolute: bool) {
+    use crate::paths::{relpath, resolve};
+    let mut rename: Vec<(String, String)> = vec![];
+    for (k, (name, _)) in files.iter().enumerate() {
+        let dir = if k == 0 {
+            *ch.pick(&["", "prog/", "src/"])
+        } else if allow_absolute {
+            *ch.pick(&["", "lib/", "shared/x/", "lib/", "/abs/inc/"])
+        } else {
+            *ch.pick(&["", "lib/", "shared/x/", "lib/", "prog/deep/"])
+        };
+        rename.push((name.clone(), crate::paths::normalise(&format!("{dir}{name}"))));
+    }
+    let old_names: Vec<String> = files.iter().map(|f| f.0.clone()).collect();
+    for (k, (name, lines)) in files.iter_mut().enumerate() {
+        let old_parent = old_names[k].clone();
+        *name = rename[k].1.clone();
+        for l in lines.iter_mut() {
+            if let Line::Dir(d, ops) = l {
+                if d == ".include" {
+                    if let Some(Opd::S(target)) = ops.first_mut() {
+                        let old_target = resolve(&old_parent, target);
+                        if let Some((_, new)) = rename.iter().find(|(old, _)| *old == old_target) {
+                            *target = relpath(&rename[k].1, new);
+                        }
+                    }
+                }
+            }
+        }
+    }
+}
+
+/// Rename one file of an include tree and rewrite the directives that name it, and its own.
+pub fn rename_file(files: &mut Vec<(String, Vec<Line>)>, old: &str, new: &str) {
+    use crate::paths::{relpath, resolve};
+    let names: Vec<String> = files.iter().map(|f| f.0.clone()).collect();
+    let new_name = |n: &str| if n == old { new.to_string() } else { n.to_string() };
+    for (k, (name, lines)) in files.iter_mut().enumerate() {
+        let old_parent = names[k].clone();
+        *name = new_name(&old_parent);
+        for l in lines.iter_mut() {
+            if let Line::Dir(d, ops) = l {
+                if d == ".include" {
+                    if let Some(Opd::S(target)) = ops.first_mut() {
+                        let t = resolve(&old_parent, target);
+                        if names.contains(&t) {
+                            *target = relpath(&new_name(&old_parent), &new_name(&t));
+                        }
+                    }
+                }
+            }
+        }
+    }
+}
+
+/// Give two included files in different directories the same base name.
+pub fn clash_basenames(files: &mut Vec<(String, Vec<Line>)>, ch: &mut Choices) {
+    use crate::paths::dir_of;
+    let n = files.len();
+    let mut pairs = vec![];
+    for a in 1..n {
+        for b in 1..n {
+            if a != b && dir_of(&files[a].0) != dir_of(&files[b].0) {
+                pairs.push((a, b));
+            }
+        }
+    }
+    if pairs.is_empty() {
+        return;
+    }
+    let (a, b) = *ch.pick(&pairs);
+    let base = files[a].0.rsplit('/').next().unwrap_or("x.s").to_string();
+    let d = dir_of(&files[b].0).to_string();
+    let new = if d.is_empty() { base } else { format!("{d}/{base}") };
+    if files.iter().any(|f| f.0 == new) {
+        return;
+    }
+    let old = files[b].0.clone();
+    rename_file(files, &old, &new);
+}
+
 #[derive(Clone, Debug, PartialEq, Eq, Serialize, Deserialize)]
 pub struct Defect {
     pub kind: String,
